@@ -200,7 +200,7 @@ func TestVerif_C20_parallel_calls(t *testing.T) {
 		}
 		return c
 	})
-	kit.Run(t, "C20", c20ParallelRule, kit.Opts{Quick: 1000, Thorough: 32000},
+	kit.Run(t, "C20", c20ParallelRule, kit.Opts{Quick: 400, Thorough: 16000},
 		func(rt *rapid.T) c20Par {
 			return c20Par{
 				R: rapid.IntRange(20, 200).Draw(rt, "r"),
